@@ -2,6 +2,7 @@ import Driver.Util
 import LemoModel.Journal
 import LemoModel.MergeLogs
 import LemoModel.CopyHeap
+import LemoModel.CopySlice
 namespace Driver.C07
 open LemoModel.Journal Driver
 
@@ -87,6 +88,9 @@ def stepInit (d : D) : List String → Option D
   | [i, "profile", k, v] => do
     let k ← k.toNat?; let v ← v.toNat?
     some (setInit d (← i.toNat?) fun a => { a with profile := upd a.profile k v })
+  | i :: "signers" :: "-" :: rest => do
+    let ss ← parseSigners rest
+    some (setInit d (← i.toNat?) fun a => { a with signers := ss })
   | [i, "code", id] => do
     let id ← id.toNat?
     let d := setInit d (← i.toNat?) fun a => { a with codeHash := 10 + id }
@@ -155,8 +159,26 @@ def copyOp (ps rs : String) (ws : List String) : Option String := do
   let w := writes c.1 c.2 ws
   some s!"src.profile={showMap (rd w.1 src.profile)} src.records={showMap (rd w.1 src.records)} cpy.profile={showMap (rd w.1 w.2.profile)} cpy.records={showMap (rd w.1 w.2.records)}"
 
+/-- `copysig n v1 v2 …` (each v = comma list, `-` = empty): LemoModel.CopySlice against Copy + SetSingers -/
+def parseList (w : String) : Option (List Nat) :=
+  if w == "-" then some [] else (w.splitOn ",").mapM (·.toNat?)
+
+open LemoModel.CopySlice in
+def copySigOp (n : String) (vs : List String) : Option String := do
+  let n ← n.toNat?
+  let vs ← vs.mapM parseList
+  let src : Option Slice := if n = 0 then none else some ⟨0, n⟩
+  let h : Heap := if n = 0 then [] else [(List.range n).map (· + 1)]
+  let r := sets false h src vs
+  let sh := fun (l : List Nat) => "[" ++ ",".intercalate (l.map toString) ++ "]"
+  some s!"src={sh (rd r.1 src)} cpy={sh (rd r.1 r.2)}"
+
 def step (d : D) (w : List String) : D × String :=
   match w with
+  | "copysig" :: n :: vs =>
+    match copySigOp n vs with
+    | some o => (d, o)
+    | none => (d, "bad-op")
   | "copy" :: ps :: rs :: ws =>
     match copyOp ps rs ws with
     | some o => (d, o)
